@@ -58,7 +58,10 @@ Inductive cop :=
 (* raw bytes read from the directory: for entry file number [fi] (ordered by first index, empty files last) the slot records
    [st, st+n) as they lie in the file (eight bytes at a time as big-endian words), and the length words of the cells of the live ones among them; the hard state record
    at offset 512 and the two words at offset 1024 of raft.meta *)
-| RawBytes (wins : list (nat * nat * nat * list N * list N)) (hsrec : list N) (snaphdr : list N).
+| RawBytes (wins : list (nat * nat * nat * list N * list N)) (hsrec : list N) (snaphdr : list N)
+(* DeleteBefore j in which the harness made one removal fail: i removals had been done, [rep] = the error was reported,
+   [ff] = the first index of the live store right after it, [want] = the answer of the second call *)
+| FaultyDel (j : N) (i : nat) (rep : bool) (ff : N) (want : result).
 
 Definition window_bytes (f : file) (st n : nat) : list N :=
   concat (map (fun p => slot_bytes (slot_at f (N.of_nat p))) (seq st n)).
@@ -99,6 +102,15 @@ Fixpoint check_disk (v : variant) (P : params) (i : nat) (d : disk) (ops : list 
         if result_eqb (dres P d1 Ok [] 0 None) want then check_disk v P (S i) d1 r else Some i
   | RawBytes wins hsrec snaphdr :: r =>
       if check_bytes d wins hsrec snaphdr then check_disk v P (S i) d r else Some i
+  | FaultyDel j k rep ff want :: r =>
+      match delete_fail P j k d with
+      | Some d1 =>
+          if rep && (disk_first d1 =? ff) then
+            let '(d2, got) := step_disk v P (DeleteBefore j) d1 in
+            if result_eqb got want then check_disk v P (S i) d2 r else Some i
+          else Some i
+      | None => Some i
+      end
   end.
 
 (* the specification is told the first index the implementation reported after the operation (its compaction choice);
@@ -109,6 +121,7 @@ Fixpoint check_spec (i : nat) (a : alog) (ops : list cop) : option nat :=
   | RawBytes _ _ _ :: r => check_spec (S i) a r
   | c :: r =>
       let '(o, want) := match c with Plain o w => (o, w) | Faulty es h s _ _ _ _ _ w => (Save es h s, w)
+                                     | FaultyDel j _ _ _ w => (DeleteBefore j, w)
                                      | RawBytes _ _ _ => (GetMeta, mkres Ok 0 0 [] 0 None) end in
       let '(a', got) := step_spec o (r_first want) a in
       if result_eqb got want then check_spec (S i) a' r else Some i
